@@ -350,6 +350,21 @@ func runC08(a *args) error {
 					what = fmt.Sprintf("partition restore: counters Len=%d bytes=%d, saved state has Len=%d bytes=%d", d2.Len, d2.BytesSize, d.Len, wantBytes)
 				}
 			}
+			// the partition's own snapshots: a snapshot is a value - the log store caches it and messages to lagging
+			// followers carry it - so taking a later one (after further changes) leaves the bytes of an earlier one alone,
+			// and those bytes still restore the state they were taken of
+			if what == "" {
+				s1, e1 := dst.ds.VerifSnapshot(0)
+				keep := append([]byte(nil), s1...)
+				dst.ds.VerifIndex(0).Insert(uuidFrom(r), f32bitsVec(genVec(r, c.Dim)), index.Metadata{"later": "1"}, 0)
+				if len(got0(dst)) > 1 {
+					dst.ds.VerifIndex(0).Remove(got0(dst)[0])
+				}
+				_, e2 := dst.ds.VerifSnapshot(0)
+				if e1 == nil && e2 == nil && !bytes.Equal(s1, keep) {
+					what = fmt.Sprintf("the %d bytes of a partition snapshot changed when the partition took its next snapshot", len(keep))
+				}
+			}
 			dst.close()
 			st.count("load:partition-restore:used=true")
 			if what != "" {
@@ -393,4 +408,15 @@ func runC08(a *args) error {
 		return err
 	}
 	return writeJSON(a.out+"/stats.json", st)
+}
+
+// got0: ids of the items a solo partition holds
+func got0(p *soloPartition) []uuid.UUID {
+	var out []uuid.UUID
+	for _, v := range p.ds.VerifIndex(0).VerifDump().Vertices {
+		if v.InMap {
+			out = append(out, v.Id)
+		}
+	}
+	return out
 }
